@@ -26,11 +26,15 @@ pub fn cached_metadata(path: &Path) -> Result<ArrowReaderMetadata> {
         if let Some(map) = guard.as_ref() {
             if let Some((t, md)) = map.get(path) {
                 if *t == mtime {
+                    #[cfg(feature = "verif-hooks")]
+                    crate::verif::hit("meta_cache.hit");
                     return Ok(md.clone());
                 }
             }
         }
     }
+    #[cfg(feature = "verif-hooks")]
+    crate::verif::hit("meta_cache.load");
     let mut file = File::open(path)?;
     let md = ArrowReaderMetadata::load(&mut file, ArrowReaderOptions::new())?;
     let mut guard = CACHE.write();
@@ -64,6 +68,8 @@ pub fn cached_reader_builder_with_schema(
         if let Some(map) = guard.as_ref() {
             if let Some((t, md)) = map.get(&key) {
                 if *t == mtime {
+                    #[cfg(feature = "verif-hooks")]
+                    crate::verif::hit("meta_cache.schema_hit");
                     let file = File::open(path)?;
                     return Ok(ParquetRecordBatchReaderBuilder::new_with_metadata(
                         file,
